@@ -29,7 +29,10 @@ REQUIRED_THEOREMS = ['C03_energy_grad', 'C03_energy_grad_prbm', 'C03_logZ_grad',
                      'C03_exact_gradient_density_flat', 'C03_single_sample', 'C03_single_sample_density', 'C03_bases_none',
                      'C03_bases_none_density', 'C03_pi_grad_branches_agree', 'C03_pi_grad_branches_differ', 'C03_default_dictionary_ok',
                      # extension round X2: the gradient model calls the complex kernel as coded at HEAD (C.invH, C.csigmoidH)
-                     'C03_rot_comp_textbook', 'C03_pi_grad_sigmoid']
+                     'C03_rot_comp_textbook', 'C03_pi_grad_sigmoid',
+                     # extension round 2 (code inside the model): call forms of `bases`, zero rotated amplitude, batch layout
+                     'C03_bases_forms_agree', 'C03_bases_forms_agree_1d', 'C03_bases_forms_refused', 'C03_gamma_grad_layout',
+                     'C03_pi_grad_layout', 'C03_zero_amplitude_iff_infinite_nll']
 RULE = ("case = (state kind, n, h[, a], parameters = scale*N(0,1) with all biases non-zero (the phase network's auxiliary bias of the mixed state is "
         "non-zero in about half of the cases, exactly zero in the others), scale in {0.3,0.7,1.2} plus saturated rows at scale 3 and 10, dataset of random "
         "basis states with repeats, per-sample basis strings over {X,Y,Z} incl. all-Z rows and mixed rows in one batch); regime all-strings: one dataset "
@@ -755,6 +758,159 @@ def _model_points(ctx, st, A, kind, case, n, h, a, am, ph, data, space, S, D, g,
                 pg = pi_grad_form(st, A, vt.unsqueeze(0), vpt.unsqueeze(0), flag).numpy()
                 ctx.point(f"pi_grad(phase={flag}) default expand, batch of one", "aux", np.r_[pg[0].ravel(), pg[1].ravel()], want, case, scale=scale)
             ctx.count("pi_grad/expand=False:d_mu" + ("=0" if all(x == 0 for x in ph["d"]) else "!=0"))
+            if n <= 3 and len(data) <= 40:
+                layout_model_points(ctx, st, case, n, h, a, am, ph, space, scale)
+        if len(data) <= 40:
+            args_model_points(ctx, st, kind, case, n, h, a, am, ph, data, S, D, scale)
+
+
+# ------------------------------------------------------------------ extension round 2: the code AROUND the per-sample formulas, against the model
+TH_FORMS = "C03_bases_forms_agree / C03_bases_forms_agree_1d / C03_bases_none"
+KEYS = "XYZ"
+
+
+def _bases_json(b):
+    """the caller's `bases` object as the model's BasesArg"""
+    if b is None:
+        return {"form": "none"}
+    if isinstance(b, str):
+        return {"form": "str", "value": b}
+    if isinstance(b, np.ndarray):
+        b = b.tolist()
+    b = list(b)
+    if all(isinstance(x, str) for x in b):
+        return {"form": "seq1", "value": b}
+    return {"form": "seq2", "value": [list(r) for r in b]}
+
+
+def args_model_points(ctx, st, kind, case, n, h, a, am, ph, data, S, D, scale):
+    """gradient(samples, bases) with `bases` in every form the code distinguishes, real code against Grads.gradientCplxArgs /
+    gradientDMArgs on the same batch.  Documented forms of a valid assignment: property level (values);  malformed / undocumented
+    forms: auxiliary level (accepted-or-refused, values when both accept) - the property does not say what must be refused."""
+    dict_enc = {L: [[[f2b(D[L][r][c].real), f2b(D[L][r][c].imag)] for c in range(2)] for r in range(2)] for L in "XYZ"}
+    strings = [b for _, b in data]
+    N = len(data)
+    base = dict(kind=kind, n=n, h=h, am=qc.pbits(am), ph=qc.pbits(ph), dict=dict_enc, keys=KEYS)
+    if kind == "dm":
+        base.update(a=a, eps=f2b(EPS))
+    rows_all = [[int(x) for x in s] for s, _ in data]
+
+    def both(name, level, samples_t, one, rows, bobj):
+        try:
+            got = [_np(t).ravel() for t in (st.gradient(samples_t) if bobj is None else st.gradient(samples_t, bobj))]
+            iok = True
+        except Exception:  # noqa: BLE001  (refused-or-not only: never the exception type)
+            got, iok = None, False
+        m = ctx.driver.call("c03.args", samples={"one": one, "rows": rows}, bases=_bases_json(bobj), **base)
+        mok = bool(m["ok"])
+        ctx.count(f"bases-form/{name}: " + ("accepted" if iok else "refused"))
+        ok = ctx.point(f"gradient(samples, bases as {name}): accepted by the code == accepted by the model", level, [int(iok)], [int(mok)],
+                       {**case, "form": name}, exact=True, sig=f"{kind}/bases-form-accept/{name}", theorem=TH_FORMS if level == "property" else "C03_bases_forms_refused")
+        if ok and iok:
+            for i in (0, 1):
+                ctx.point(f"gradient(samples, bases as {name})[{i}]", level, got[i], unbits(m["gradient"][i]), {**case, "form": name}, scale=scale,
+                          rtol=5e-8, atol=1e-10, sig=f"{kind}/bases-form-value/{name}", theorem=TH_FORMS)
+
+    # ---- documented forms of the batch (property level)
+    for name, bobj in (("2-D char array", np.array([list(b) for b in strings])), ("list of lists", [list(b) for b in strings]),
+                       ("list[str]", list(strings)), ("tuple[str]", tuple(strings)), ("1-D str ndarray", np.array(strings)), ("None", None)):
+        both(name, "property", S, False, rows_all, bobj)
+    # ---- the 1-D single-sample forms (quantifier: "1-D single-sample call form"): last rotated row, else row 0
+    rot_rows = [k for k, b_ in enumerate(strings) if any(ch != "Z" for ch in b_)]
+    k0 = rot_rows[-1] if rot_rows else 0
+    v1, b0 = S[k0], strings[k0]
+    for name, bobj in (("1-D/str", b0), ("1-D/list of letters", list(b0)), ("1-D/char array", np.array(list(b0))),
+                       ("1-D/one-row 2-D array", np.array([list(b0)])), ("1-D/None", None)):
+        both(name, "property", v1, True, [rows_all[k0]], bobj)
+    both("batch of one/[str]", "property", S[k0:k0 + 1], False, [rows_all[k0]], [b0])
+    # ---- malformed / undocumented (auxiliary level): what is refused, and what is silently accepted
+    mal = [("str for a batch", S, False, rows_all, strings[0]), ("empty list", S, False, rows_all, []),
+           ("one row too many", S, False, rows_all, strings + [strings[0]]),
+           ("one row too many (2-D)", S, False, rows_all, [list(b) for b in strings + [strings[0]]]),
+           ("lower-case letter", S, False, rows_all, [strings[0].replace("Z", "z").replace("X", "x").replace("Y", "y")] + strings[1:]),
+           ("long strings, trailing Z", S, False, rows_all, [b + "Z" for b in strings]),
+           ("long strings, trailing X", S, False, rows_all, [b + "X" for b in strings]),
+           ("1-D/[str] (one multi-letter entry)", v1, True, [rows_all[k0]], [b0] if n > 1 else ["XZ"]),
+           ("1-D/two-row 2-D array", v1, True, [rows_all[k0]], [list(b0), list(b0)])]
+    if N >= 2:
+        mal += [("one row too few", S, False, rows_all, strings[:-1]), ("ragged strings", S, False, rows_all, [strings[0] + "Z"] + strings[1:]),
+                ("ragged rows (2-D)", S, False, rows_all, [list(strings[0]) + ["Z"]] + [list(b) for b in strings[1:]])]
+    if n >= 2:
+        mal += [("short strings (last site missing)", S, False, rows_all, [b[:-1] for b in strings]),
+                ("multi-letter entries (2-D)", S, False, rows_all, [[b[:2]] + list(b[2:]) for b in strings])]
+    for name, smp, one, rows, bobj in mal:
+        both(name, "aux", smp, one, rows, bobj)
+
+
+def _ft(m):
+    return (list(m["shape"]), unbits(m["data"])) if m["ok"] else None
+
+
+def layout_model_points(ctx, st, case, n, h, a, am, ph, space, scale):
+    """full tensors (shape + every entry) of gamma_grad / pi_grad for B, B' in {1, 2, 3} and 1-D operands, expand on and off"""
+    K = len(space)
+
+    def rows_of(B, off, step):
+        return [[float(x) for x in space[(off + step * k) % K]] for k in range(B)]
+    combos = [((False, B), (False, Bp)) for B in (1, 2, 3) for Bp in (1, 2, 3)]
+    combos += [((True, 1), (True, 1)), ((True, 1), (False, 1)), ((False, 3), (True, 1)), ((True, 1), (False, 3)), ((False, 1), (True, 1))]
+    for (one_v, B), (one_p, Bp) in combos:
+        rv, rp = rows_of(B, 1, 3), rows_of(Bp, 2, 5)
+        tv = torch.tensor(rv[0] if one_v else rv, dtype=torch.double)
+        tp = torch.tensor(rp[0] if one_p else rp, dtype=torch.double)
+        tag = f"v={'1-D' if one_v else B},vp={'1-D' if one_p else Bp}"
+        m = ctx.driver.call("c03.layout", n=n, h=h, a=a, am=qc.pbits(am), ph=qc.pbits(ph),
+                            v={"one": one_v, "rows": bits(rv)}, vp={"one": one_p, "rows": bits(rp)})
+        lcase = {**case, "layout": tag}
+        calls = []
+        for expand in (True, False):
+            e = "expand" if expand else "noexpand"
+            calls += [(f"gamma_grad(+1,{e})", lambda expand=expand: st.rbm_am.gamma_grad(tv, tp, eta=1, expand=expand), (m[f"gamma_plus_{e}"], None), expand, "C03_gamma_grad_layout"),
+                      (f"gamma_grad(-1,{e})", lambda expand=expand: st.rbm_ph.gamma_grad(tv, tp, eta=-1, expand=expand), (m[f"gamma_minus_{e}"], None), expand, "C03_gamma_grad_layout"),
+                      (f"pi_grad(phase=False,{e})", lambda expand=expand: st.pi_grad(tv, tp, phase=False, expand=expand), tuple(m[f"pi_am_{e}"]), expand, "C03_pi_grad_layout"),
+                      (f"pi_grad(phase=True,{e})", lambda expand=expand: st.pi_grad(tv, tp, phase=True, expand=expand), tuple(m[f"pi_ph_{e}"]), expand, "C03_pi_grad_layout")]
+        for name, f, (mre, mim), expand, th in calls:
+            level = "property" if expand else "aux"   # training calls these with expand=True only (am_grads / ph_grads)
+            try:
+                t = _np(f())
+                iok = True
+            except Exception:  # noqa: BLE001
+                t, iok = None, False
+            ctx.count(f"layout/{name}/{tag}: " + ("accepted" if iok else "refused"))
+            sig = f"dm/layout/{name}"
+            if not ctx.point(f"{name} [{tag}]: accepted by the code == accepted by the model", level, [int(iok)], [int(bool(mre['ok']))], lcase,
+                             exact=True, sig=sig, theorem=th) or not iok:
+                continue
+            shp, dat = _ft(mre)
+            ok = ctx.point(f"{name} [{tag}]: shape (after the leading real/imag axis)", level, list(t.shape), [2] + shp, lcase, exact=True, sig=sig, theorem=th)
+            if not ok:
+                continue
+            ctx.point(f"{name} [{tag}]: real part, every entry", level, t[0].ravel(), dat, lcase, scale=scale, sig=sig, theorem=th)
+            ctx.point(f"{name} [{tag}]: imaginary part, every entry", level, t[1].ravel(), _ft(mim)[1] if mim is not None else np.zeros(t[1].size), lcase,
+                      scale=scale, sig=sig, theorem=th)
+
+
+def zero_amplitude_probe(ctx):
+    """coverage-map item 9: ComplexWaveFunction.rotated_gradient at a ZERO rotated amplitude (all-zero parameters, n = 1, outcome 1 in
+    basis X: Upsi = (psi(0) - psi(1)) / sqrt 2 = 0).  The loss is +inf there (C03_zero_amplitude_iff_infinite_nll), outside every gradient
+    theorem's hypothesis: INFORMATIONAL - what the code and the Float model return is counted, no verdict."""
+    zero = {"W": [[0.0]], "b": [0.0], "c": [0.0]}
+    st = af.make_complex(af.Args(None), 1, 1, zero, zero)
+    v = torch.tensor([[1.0]], dtype=torch.double)
+    D = dict_np()
+    try:
+        g = [_np(t) for t in st.rotated_gradient(np.array(["X"]), v)]
+        what = "nan" if any(np.any(np.isnan(x)) for x in g) else "inf" if any(np.any(np.isinf(x)) for x in g) else "finite"
+    except Exception as e:  # noqa: BLE001
+        what = "raises " + type(e).__name__
+    ctx.count(f"zero-amplitude (informational): rotated_gradient at Upsi = 0 returns {what}")
+    if ctx.driver is not None:
+        dict_enc = {L: [[[f2b(D[L][r][c].real), f2b(D[L][r][c].imag)] for c in range(2)] for r in range(2)] for L in "XYZ"}
+        m = ctx.driver.call("c03.zero_amp", n=1, h=1, am=qc.pbits(zero), ph=qc.pbits(zero), dict=dict_enc, samples=[{"bits": [1], "basis": "X"}])[0]
+        up, iv = unbits(m["upsi"]), unbits(m["inv"])
+        gm = np.r_[unbits(m["grad"][0]), unbits(m["grad"][1])]
+        ctx.count(f"zero-amplitude (informational): model Upsi == 0 exactly: {bool(np.all(up == 0))}; Float C.invH(Upsi) is "
+                  + ("nan" if np.any(np.isnan(iv)) else "finite") + "; Float model gradient is " + ("nan" if np.any(np.isnan(gm)) else "finite"))
 
 
 def fit_pairing_probe(ctx, rng, kind, forms=False):
@@ -998,6 +1154,7 @@ def run(ctx):
         one_case(ctx, case)
         if k_ % 2 == 0 and not case.get("regime"):
             history_probe(ctx, case)
+    zero_amplitude_probe(ctx)
     for kind in ("cplx", "dm"):
         for _ in range(6 if ctx.tier == "thorough" else 3):   # round 5: 3 per kind in quick (each hands 4 integer options over in the forms of its stream)
             fit_pairing_probe(ctx, ctx.rng, kind, forms=True)
